@@ -22,12 +22,13 @@ func main() {
 	shard := fs.Int("shard", 0, "shard index")
 	of := fs.Int("of", 1, "number of shards")
 	cases := fs.Int("cases", 2000, "number of cases")
+	both := fs.Bool("both", false, "replay every behaviour with and without off-chain dispatches")
 	_ = fs.Parse(os.Args[2:])
 	switch os.Args[1] {
 	case "init-state":
 		initState(*out)
 	case "replay-claims":
-		replayClaims(*in, *shard, *of)
+		replayClaims(*in, *shard, *of, *both)
 	case "replay-timing":
 		replayTiming(*in, *out, *shard, *of)
 	case "trace-claims":
